@@ -247,6 +247,9 @@ def find_in_workspace(
     def add_children(mod_obj, query: str):
         tmp_list = []
         for child_obj in mod_obj.get_children(filter_public):
+            # Internal placeholders (#GEN_INT1, #BLOCK2, #DO3, ...) are not symbols
+            if child_obj.name.startswith("#"):
+                continue
             if child_obj.name.lower().find(query) >= 0:
                 tmp_list.append(child_obj)
         return tmp_list
